@@ -375,7 +375,7 @@ def shard_vacuity(ctx, shard_no, nshards, stride):
     """Properties whose event predicates are absent / {True} / {False} / {x > 0}, per position and on whole disjunctions."""
     with ctx.timed('vacuity-table'):
         for i, m in enumerate(gen.vacuity_table()):
-            if i % (stride * nshards) != (ctx.seed % stride) * nshards + shard_no:
+            if stride * nshards > 1 and sem._mix(i, ctx.seed) % (stride * nshards) != shard_no:
                 continue
             inp = {'text': mast.render(m)}
             try:
